@@ -6,8 +6,8 @@ ROOT="$(cd "$(dirname "$0")" && pwd)"
 PAT="${1:-}"
 mkdir -p "$ROOT/out"
 LOG="$ROOT/out/selftest.log"
-trap 'git -C /repo checkout -- . 2>/dev/null' EXIT
-if [ -n "$(git -C /repo status --porcelain --untracked-files=no)" ]; then echo "/repo has uncommitted changes; refusing"; exit 2; fi
+trap 'git -C "${VERIF_REPO:-/repo}" checkout -- . 2>/dev/null' EXIT
+if [ -n "$(git -C "${VERIF_REPO:-/repo}" status --porcelain --untracked-files=no)" ]; then echo "/repo has uncommitted changes; refusing"; exit 2; fi
 for p in "$ROOT"/mutants/*.patch "$ROOT"/seeded/*/patch.diff; do
     [ -f "$p" ] || continue
     case "$p" in *"$PAT"*) ;; *) continue;; esac
@@ -18,7 +18,7 @@ for p in "$ROOT"/mutants/*.patch "$ROOT"/seeded/*/patch.diff; do
         name="$(basename "$p" .patch)"
         props=$(sed -n 's/^# property: //p' "$p" | tr '/' ' ')
     fi
-    if ! git -C /repo apply "$p" 2>/dev/null; then echo "$name: PATCH DOES NOT APPLY" | tee -a "$LOG"; continue; fi
+    if ! git -C "${VERIF_REPO:-/repo}" apply "$p" 2>/dev/null; then echo "$name: PATCH DOES NOT APPLY" | tee -a "$LOG"; continue; fi
     verdict="MISSED"
     for prop in $props; do
         out=$(cd "$ROOT" && timeout 900 ./check "$prop" quick 2>&1); code=$?
@@ -26,6 +26,6 @@ for p in "$ROOT"/mutants/*.patch "$ROOT"/seeded/*/patch.diff; do
         if [ $code -eq 1 ] && [ "$nviol" -gt 0 ]; then verdict="DETECTED by $prop ($(echo "$out" | grep -m1 'signature:' | cut -c1-150))"; break; fi
         if [ $code -eq 2 ]; then verdict="MACHINERY-ERROR in $prop ($(echo "$out" | tail -1 | cut -c1-120))"; fi
     done
-    git -C /repo checkout -- .
+    git -C "${VERIF_REPO:-/repo}" checkout -- .
     echo "$(date +%H:%M:%S) $name: $verdict" | tee -a "$LOG"
 done
